@@ -632,6 +632,9 @@ func TestC11(t *testing.T) {
 	})
 	t.Run("random", func(t *testing.T) {
 		rapid.Check(t, func(rt *rapid.T) {
+			if pastSoftDeadline(st) {
+				return
+			}
 			k := rapid.IntRange(3, 6).Draw(rt, "n")
 			adj := make([][]bool, k)
 			for i := range adj {
@@ -704,6 +707,9 @@ func TestC12(t *testing.T) {
 	}
 	caseNo := 0
 	rapid.Check(t, func(rt *rapid.T) {
+		if pastSoftDeadline(st) {
+			return
+		}
 		caseNo++
 		var g gcase
 		if rapid.IntRange(0, 4).Draw(rt, "big") == 0 {
